@@ -901,6 +901,23 @@ class TestNode(Runnable):
                     )
                     return False
 
+            # a worker that has not opened the door yet could still have dependent nodes to run
+            for node in self.bridged_nodes:
+                if (
+                    worker.swarm_id != "localhost"
+                    and worker.swarm_id not in node.params["nets"]
+                ):
+                    continue
+                for child in node.cleanup_nodes:
+                    if child.is_flat():
+                        continue
+                    dropped_by = node._dropped_cleanup_nodes.get_workers(child)
+                    if node.params["nets"] not in dropped_by:
+                        logging.debug(
+                            f"Node still has a dependent node {child} for {node.params['nets']}"
+                        )
+                        return False
+
             # all involved workers should have also flagged the generalized node as finished
             return self.is_finished(worker, -1)
 
